@@ -786,18 +786,39 @@ def image_params(path):
             "cluster": (1024 << u32(0x1C)) if "bigalloc" in feats else a["bs"]}
 
 
-def rich_universe(b, basedir, profiles, cat):
-    """The enriched starting images (directory, census per profile); a profile that cannot be built breaks the check."""
+def roomy(profiles, params):
+    """profiles on which Tune!AllocSeqs can act from the first request on: inodes larger than 128 bytes (a project quota file
+    needs them), no project quota yet, quota-enabling requests not excluded (ORACLE_BLIND)"""
+    return [p for p in sorted(profiles) if params[p]["isz"] > 128 and not params[p]["prj"]
+            and any(not excluded(p, t) for t in EXPLICIT["allocseqs"] if any(QUOTA_ENABLING(o) for o in t))]
+
+
+def rich_universe(b, basedir, profiles, cat, tier="thorough"):
+    """The enriched starting images (directory, census per image, parameters per profile); an image that cannot be built
+    breaks the check.  Variants of the catalogue (Tune!CatVariants): thorough = every profile in every variant; quick = one
+    seeded profile (of those on which Tune!AllocSeqs can act) in every variant."""
     params = {p: image_params(os.path.join(basedir, p + ".img")) for p in profiles}
     richdir, info = c11_rich.rich_images(b, basedir, profiles, params, cat)
     badp = {p: i.get("why", "?") for p, i in info.items() if not i.get("ok")}
     if badp:
         die_broken("the catalogue content could not be added to the starting image(s): %s" % json.dumps(badp)[:1500])
-    return richdir, {p: info[p]["content"] for p in sorted(info)}
+    vs = [v for v in cat.get("variants", []) if v]
+    if tier == "quick":
+        cand = roomy(profiles, params)
+        chosen = random.Random(seed() * 7919 + 11).sample(cand, 1) if cand else []
+    else:
+        chosen = list(profiles)
+    vinfo = c11_rich.variant_images(b, richdir, ["%s+%s" % (p, v) for p in chosen for v in vs])
+    badv = {p: i.get("why", "?") for p, i in vinfo.items() if not i.get("ok")}
+    if badv:
+        die_broken("a catalogue variant of a starting image could not be built: %s" % json.dumps(badv)[:1500])
+    content = {p: info[p]["content"] for p in profiles}
+    content.update({p: i["content"] for p, i in vinfo.items()})
+    return richdir, content, params
 
 
 def excluded(profile, ops):
-    f = ORACLE_BLIND.get(profile)
+    f = ORACLE_BLIND.get(profile.split("+")[0])
     return bool(f and any(f(o) for o in ops))
 
 
@@ -805,8 +826,8 @@ def sequences(tier, profiles, allops, structural_ops, pair, triples, rng, varian
     """List of (profile, [ops]).  thorough = the whole universe; quick = every single request on every profile, every
     ordering of the seeded triples on a seeded third of the profiles, a seeded sample of ordered pairs, and the sequences the
     specification lists one by one: Tune!FieldPairs (every transition of every multi-valued field) on one seeded profile,
-    Tune!AllocSeqs (objects created in / removed from ordinary inodes) on one seeded starting image of the variant in which
-    s_first_ino is free (thorough: every image of both variants), Tune!ExtraPairs on one seeded profile."""
+    a seeded third of Tune!AllocSeqs (objects created in / removed from ordinary inodes) on one seeded starting image of the
+    variant in which s_first_ino is free (thorough: all of them on every image of both variants), Tune!ExtraPairs on one seeded profile."""
     seqs = []
     structural = {op_key(o) for o in structural_ops}
     tun_profiles = set(rng.sample(sorted(profiles), 3)) if tier == "quick" else set(profiles)
@@ -833,21 +854,22 @@ def sequences(tier, profiles, allops, structural_ops, pair, triples, rng, varian
     seqs += tri + prs
     # ---- the sequences listed by the specification
     rng2 = random.Random(rng.random())          # own stream: the samples above stay what they were
-    # a project quota file needs inodes larger than 128 bytes: sample where the family can act (thorough: everywhere)
-    # (quick: one image on which create ; remove acts -- no project quota yet; thorough: every image, both variants)
-    roomy = lambda ps: [p for p in sorted(ps) if not params or (params[p.split("+")[0]]["isz"] > 128 and not params[p.split("+")[0]]["prj"]
-                                                                and any(not excluded(p.split("+")[0], t) for t in EXPLICIT["allocseqs"] if any(QUOTA_ENABLING(o) for o in t)))]
     if tier == "quick":
         fp_profiles = rng2.sample(sorted(tun_profiles), 1)
-        ap_profiles = rng2.sample(roomy(variants), min(1, len(roomy(variants))))
+        ap_profiles = sorted(variants)                    # quick: the one variant image rich_universe() built (seeded)
         xp_profiles = rng2.sample(sorted(profiles), 1)
     else:
         fp_profiles, ap_profiles, xp_profiles = sorted(profiles), sorted(variants) + sorted(profiles), sorted(profiles)
     for plist, key in ((fp_profiles, "fieldpairs"), (ap_profiles, "allocseqs"), (xp_profiles, "extrapairs")):
         for p in plist:
-            for t in EXPLICIT[key]:
+            lst = [t for t in EXPLICIT[key] if not excluded(p, t)]
+            if tier == "quick" and key == "allocseqs":
+                # every one of them creates an object in the first ordinary inode and removes it again: a seeded third
+                two, three = [t for t in lst if len(t) == 2], [t for t in lst if len(t) != 2]
+                lst = rng2.sample(two, min(8, len(two))) + rng2.sample(three, min(4, len(three)))
+            for t in lst:
                 seqs.append((p, list(t)))
-    return [s for s in seqs if not excluded(s[0].split("+")[0], s[1])]
+    return [s for s in seqs if not excluded(s[0], s[1])]
 
 
 def _run_lines(args):
@@ -959,12 +981,11 @@ def run(tier):
         if len(profiles) < 10:
             die_broken("only %d usable base images: %s" % (len(profiles), {p: i.get("fsck_out", i.get("mke2fs_err", ""))[-200:] for p, i in meta.items() if not i.get("ok")}))
         allops, structural, pair, triples, cat = load_universe(work)
-        basedir, content = rich_universe(b, basedir, profiles, cat)       # from here on: the enriched copies
+        basedir, content, params = rich_universe(b, basedir, profiles, cat, tier)       # from here on: the enriched copies
         with cf.ThreadPoolExecutor(max_workers=2) as bg:
             mc = bg.submit(model_check, tier, ev, vd, basedir, profiles, work, content)
             rng = random.Random(seed())
             variants = sorted(set(content) - set(profiles))
-            params = {p: image_params(os.path.join(basedir, p + ".img")) for p in profiles}
             seqs = sequences(tier, profiles, allops, structural, pair, triples, rng, variants, params)
             digs = {}
             for p in sorted({q for q, _ in seqs}):
@@ -1047,7 +1068,7 @@ def run(tier):
         ev.cov["rule"] = ("universe = Tune!AllOps (%d requests) x %d populated base images enriched with Tune's boundary catalogue (UniverseOK decided by TLC), every ordering of Tune!TripleSeeds (%d sets), ordered pairs over "
                           "Tune!PairOps (%d requests), Tune!FieldPairs (every transition of the journalling-mode / errors / hash fields), Tune!AllocSeqs on the starting images with s_first_ino free and in use, "
                           "Tune!ExtraPairs (quick: structural requests on every profile, tunables on 3 seeded profiles, seeded sample of pairs and "
-                          "triples, FieldPairs on 1, AllocSeqs on 1 image with s_first_ino free, ExtraPairs on 1 seeded image); a pair whose first request is refused or changes no byte of the image is the single second request; non-trivial"
+                          "triples, FieldPairs on 1, a seeded third of AllocSeqs on 1 image with s_first_ino free, ExtraPairs on 1 seeded image); a pair whose first request is refused or changes no byte of the image is the single second request; non-trivial"
                           % (len(allops), len(profiles), len(triples), len(pair)) + " = accepted request that rewrote at least one "
                           "metadata object other than the superblock copies (image bytes differ outside them); distinct by (profile, request, "
                           "feature set before, uuid class, inode size)")
@@ -1082,8 +1103,13 @@ def replay(path):
         b = build.build()
         basedir, meta = mkbase.base_images(b)
         cat = load_universe(work)[4]
-        basedir, content = rich_universe(b, basedir, sorted(q for q, i in meta.items() if i.get("ok")), cat)
         p, ops = rp["profile"], rp["ops"]
+        names = sorted(q for q, i in meta.items() if i.get("ok"))
+        basedir, content, params = rich_universe(b, basedir, names, cat, "quick")
+        if p not in content:                               # a catalogue variant that this seed's quick universe did not build
+            vi = c11_rich.variant_images(b, basedir, [p])
+            if not vi[p].get("ok"):
+                die_broken("starting image %s could not be built: %s" % (p, vi[p].get("why")))
         dg, n, err = tree_digest(b, os.path.join(basedir, p + ".img"), work, "base")
         lines = run_sequence((b, basedir, p, ops, work, 0, dg))
         jl = [json.dumps({k: l[k] for k in TRACE_KEYS}, sort_keys=True) for l in lines]
